@@ -5,6 +5,7 @@ Three things are read from the source text:
     which is how the harness identifies a variant without relying on Display or Debug),
   * the `match self` arms of `impl Display for CompressionType`   (variant -> printed name),
   * the `match raw` arms of `impl FromStr for CompressionType`     (accepted text -> variant).
+Plus, from src/rpm/package.rs, the variant `get_payload_compressor` returns for an absent tag (C05).
 Variants are numbered by declaration order in the Lean tables (string literals do not reduce in the kernel).
 
 Two more facts about variants are read for the read side (C12 / C05, Model/PkgFiles.lean, Model/Accessors.lean):
